@@ -74,6 +74,7 @@ fn main() {
                 known: None,
                 quiet: false,
                 only_hash: false,
+                dump_hashes: None,
                 from: 0,
             };
             let mut i = 4;
@@ -117,6 +118,10 @@ fn main() {
                         i += 1
                     }
                     "--hash-only" => o.only_hash = true,
+                    "--dump-hashes" => {
+                        o.dump_hashes = Some(need(i));
+                        i += 1
+                    }
                     "--quiet" => o.quiet = true,
                     _ => usage(),
                 }
